@@ -346,19 +346,9 @@ def sync_assembly(ctx, repo):
         ctx.ob("R4", f"{rr.qual}::handler-registered", any(gr.dom(n, S) for n, c in reg), f"{rr.qual}: request not registered as receive handler before sending", loc(rr, S.ast))
         cb = [n for n in gr.stmt_nodes() if isinstance(n.ast, ast.Assign) and ast.unparse(n.ast.targets[0]).endswith("._on_handled") and ast.unparse(n.ast.value) == f"self.{fi.name}"]
         ctx.ob("R4", f"{rr.qual}::callback-wired", any(gr.dom(n, S) for n in cb), f"{rr.qual}: segment callback not wired to {fi.name}", loc(rr, S.ast))
-    # counted retry()
-    rt = repo.own_method("GeckoUdpProtocolHandler", "retry")
-    grt = cfg_of(rt)
-    dec = [n for n in grt.stmt_nodes() if isinstance(n.ast, ast.AugAssign) and ast.unparse(n.ast.target) == "self._retry_count" and isinstance(n.ast.op, ast.Sub)]
-    sends = calls_named(grt, "queue_send")
-    ok = len(dec) == 1 and all(grt.dom(dec[0], S) for S, _ in sends) and bool(sends)
-    ctx.ob("R5", f"{rt.qual}::counted", ok, f"{rt.qual}: a resend is not preceded by exactly one decrement of the retry budget", rt.loc)
-    refuse = [n for n in grt.stmt_nodes() if isinstance(n.ast, ast.Return) and repo.try_fold(n.ast.value, default="?") is False]
-    ok = bool(refuse) and all(("0 == self._retry_count", True) in grt.guard_atoms(n) for n in refuse)
-    ctx.ob("R5", f"{rt.qual}::refuses-at-zero", ok, f"{rt.qual}: does not refuse exactly when the budget is 0", rt.loc)
-    if dec:
-        facts = grt.guard_atoms(dec[0])
-        ctx.ob("R5", f"{rt.qual}::no-resend-at-zero", ("0 == self._retry_count", False) in facts, f"{rt.qual}: can resend with an exhausted budget", rt.loc)
+    # counted retry(): by interpretation (vlib/handlermodel.py)
+    from ..handlermodel import retry_obligations
+    retry_obligations(ctx, repo, "R5")
 
 
 def simulator_chain(ctx, repo):
